@@ -139,6 +139,18 @@ def make_project(seed, nfiles, dup=False):
         block = "%s\npub %sfn %s(%s) -> Result<%s, String> {\n%s}\n" % (attr, asy, name, ", ".join(params), ret, body)
         decls[p].append(block)
         meta["commands"].append(name)
+    # two variants of one command (the same name, cfg-gated, different signatures), not next to each other
+    late_pair = None
+    if seed % 3 == 1 and nfiles >= 2:
+        pa, pb = paths[0], (paths[0] if seed % 6 == 1 else paths[-1])
+        if pa == pb:
+            # … or next to each other in one file (a reordering then separates them)
+            late_pair = pa
+        else:
+            decls[pa].insert(0, "#[cfg(desktop)]\n#[tauri::command]\npub fn open_settings(tab: String) -> Result<(), String> {\n    todo!()\n}\n")
+        if pa != pb:
+            decls[pb].append("#[cfg(mobile)]\n#[tauri::command]\npub fn open_settings(tab: String, sheet: bool) -> Result<(), String> {\n    todo!()\n}\n")
+        meta["commands"].append("open_settings")
     # the same serde type name defined in two files with different fields (one of the definitions is used by a command)
     if dup and nfiles >= 2:
         pa, pb = paths[0], paths[-1]
@@ -181,6 +193,9 @@ def make_project(seed, nfiles, dup=False):
         decls[rng.pick(paths)].append("pub fn notify_helper_%d(app: &AppHandle) {\n    app.emit(\"%s\", %s).ok();\n}\n" % (
             h, ev, rng.pick(['"x"', "1u32", "true"])))
         meta["events"].append(ev)
+    if late_pair is not None:
+        decls[late_pair].append("#[cfg(desktop)]\n#[tauri::command]\npub fn open_settings(tab: String) -> Result<(), String> {\n    todo!()\n}\n")
+        decls[late_pair].append("#[cfg(mobile)]\n#[tauri::command]\npub fn open_settings(tab: String, sheet: bool) -> Result<(), String> {\n    todo!()\n}\n")
     for p in paths:
         files[p] = decls[p]
     return {"files": files, "meta": meta, "header": HEADER}
@@ -198,6 +213,8 @@ NOISE = [
     "// just a comment\n",
     "/// Serialized by hand: no `#[derive(Serialize, Deserialize)]` here on purpose.\n",
     "// #[derive(Serialize)]\n/* #[tauri::command] */\n",
+    "#[poise::command(slash_command)]\nasync fn bot_ping_%d(ctx: Context<'_>) -> Result<(), Error> {\n    Ok(())\n}\n",
+    "#[clap::command]\npub fn cli_entry_%d() {}\n#[my::tauri_command]\npub fn not_one_%d() {}\n",
     "/// doc comment on a helper\nfn helper_%d() -> i32 {\n    42\n}\n",
     "pub struct NotSerde%d {\n    pub x: i32,\n}\n",
     "const LIMIT_%d: usize = 10;\n",
@@ -221,7 +238,7 @@ def add_noise(project, seed):
             if rng.chance(1, 2):
                 t = rng.pick(NOISE)
                 k += 1
-                nb.append(t % k if "%d" in t else t)
+                nb.append(t.replace("%d", str(k)))
             nb.append(b)
         p2["files"][path] = nb
     # an extra file with no commands and no serde types
@@ -260,6 +277,15 @@ def move_items(project, seed):
         p2["files"][path] = keep
     last = paths[-1]
     p2["files"][paths[0]].extend(p2["files"].pop(last))
+    return p2
+
+
+def rotate(project, seed):
+    """in every file the last item moves to the front (what was adjacent at the end is no longer adjacent)"""
+    p2 = copy.deepcopy(project)
+    for path, blocks in p2["files"].items():
+        if len(blocks) >= 3:
+            p2["files"][path] = blocks[-1:] + blocks[:-1]
     return p2
 
 
